@@ -129,7 +129,15 @@ def laststep_of(cfg):
 def cfg_name(cfg):
     if cfg.get("name"):
         return cfg["name"]
-    return "%s-n%d-N%d-I%g" % (cfg["kind"], cfg["n"], cfg["steps"], cfg["current"])
+    cur = cfg["current"]
+    return "%s-n%d-N%d-I%s" % (cfg["kind"], cfg["n"], cfg["steps"],
+                               "_".join("%g" % c for c in cur) if isinstance(cur, (list, tuple)) else "%g" % cur)
+
+
+def currents_of(cfg):
+    """the filling pattern handed to -I: one current per bucket (0 = empty bucket); a single number = one bunch"""
+    cur = cfg["current"]
+    return [float(c) for c in cur] if isinstance(cur, (list, tuple)) else [float(cur)]
 
 
 def build_cmd(tg, cfg, workdir, tag="run"):
@@ -146,7 +154,7 @@ def build_cmd(tg, cfg, workdir, tag="run"):
     gap = max(1, min(gap, max(1, laststep // 2 - 1)))
     outstep = laststep - gap
     cmd = [tg["inovesa"], "--config", "/dev/null", "--gui", "0", "-s", str(n), "-N", str(steps),
-           "-T", repr(float(cfg["rotations"])), "-I", repr(float(cfg["current"])),
+           "-T", repr(float(cfg["rotations"])), "-I"] + [repr(float(c)) for c in currents_of(cfg)] + [
            "-o", out, "-n", str(outstep)]
     if cfg.get("damping_time") is not None:
         cmd += ["-d", repr(float(cfg["damping_time"]))]
@@ -223,41 +231,47 @@ def run_config(tg, cfg, workdir, timeout_s=600, tag=None, keep=False):
     shapes, data, attrs = _h5_data(tg["h5cat"], out, names)
     n = int(cfg["n"])
     nrec = shapes.get("/BunchProfile/data", [0])[0]
-    if shapes.get("/BunchProfile/data") != [nrec, 1, n] or shapes.get("/WakePotential/data") != [nrec, 1, n] \
-            or shapes.get("/EnergySpread/data") != [nrec, 1] or nrec < 2:
+    nb = len([c for c in currents_of(cfg) if c > 0])        # main(): one bunch per populated bucket
+    if shapes.get("/BunchProfile/data") != [nrec, nb, n] or shapes.get("/WakePotential/data") != [nrec, nb, n] \
+            or shapes.get("/EnergySpread/data") != [nrec, nb] or nrec < 2:
         raise RuntimeError("unexpected shapes %r" % (shapes,))
     bp = data["/BunchProfile/data"]
     wp = data["/WakePotential/data"]
-    rho = bp[(nrec - 1) * n:nrec * n]
-    rho_prev = bp[(nrec - 2) * n:(nrec - 1) * n]
-    W = wp[(nrec - 1) * n:nrec * n]
-    W_prev = wp[(nrec - 2) * n:(nrec - 1) * n]
     es = data["/EnergySpread/data"]
     q = data["/Info/AxisValues_z"]
     pss = float(attrs.get("/Info/Parameters@PhaseSpaceSize", cfg.get("opts", {}).get("PhaseSpaceSize", 12.0)))
     dq = pss / (n - 1)
     steps = int(cfg["steps"])
-    mx = max(rho)
-    if not (mx > 0) or any(v != v for v in rho):
-        raise RuntimeError("profile is not positive / has NaN")
-    lo, hi = core_range(rho)
-    stat = max(abs(a - b) for a, b in zip(rho, rho_prev)) / mx
-    stat_core = max(abs(rho[i] - rho_prev[i]) / rho[i] for i in range(lo, hi + 1))
-    wmx = max(abs(w) for w in W) or 1.0
     t = data["/Info/AxisValues_t"]
-    rec = {"rho": rho, "rho_prev": rho_prev, "W_cells": W, "W_prev": W_prev,
-           "espread": es[nrec - 1], "espread_prev": es[nrec - 2],
-           "q": q, "dq": dq, "delta": dq, "dtheta": TWO_PI / steps,
-           "stationarity": stat, "stationarity_core": stat_core,
-           "stationarity_wake": max(abs(a - b) for a, b in zip(W, W_prev)) / wmx,
-           "t_last": t[nrec - 1], "t_prev": t[nrec - 2], "nrec": nrec,
-           "charge": data["/BunchPopulation/data"][nrec - 1],
-           "bunch_length": data["/BunchLength/data"][nrec - 1],
-           "bunch_position": data["/BunchPosition/data"][nrec - 1],
-           "volt": attrs.get("/WakePotential/data@Volt"),
-           "derivation": attrs.get("/Info/Parameters@derivation"),
-           "cmd": cmd, "wall_s": wall, "n": n, "steps": steps, "name": tag,
-           "tg": {"inovesa": tg["inovesa"], "h5cat": tg["h5cat"]}, "workdir": workdir}
+
+    def bunch_record(b):
+        """last records of bunch b: its OWN recorded profile and its OWN recorded wake"""
+        at = lambda arr, k: arr[(k * nb + b) * n:(k * nb + b + 1) * n]
+        rho, rho_prev = at(bp, nrec - 1), at(bp, nrec - 2)
+        W, W_prev = at(wp, nrec - 1), at(wp, nrec - 2)
+        mx = max(rho)
+        if not (mx > 0) or any(v != v for v in rho):
+            raise RuntimeError("profile of bunch %d is not positive / has NaN" % b)
+        lo, hi = core_range(rho)
+        stat = max(abs(a - c) for a, c in zip(rho, rho_prev)) / mx
+        stat_core = max(abs(rho[i] - rho_prev[i]) / rho[i] for i in range(lo, hi + 1))
+        wmx = max(abs(w) for w in W) or 1.0
+        return {"rho": rho, "rho_prev": rho_prev, "W_cells": W, "W_prev": W_prev,
+                "espread": es[(nrec - 1) * nb + b], "espread_prev": es[(nrec - 2) * nb + b],
+                "q": q, "dq": dq, "delta": dq, "dtheta": TWO_PI / steps,
+                "stationarity": stat, "stationarity_core": stat_core,
+                "stationarity_wake": max(abs(a - c) for a, c in zip(W, W_prev)) / wmx,
+                "t_last": t[nrec - 1], "t_prev": t[nrec - 2], "nrec": nrec,
+                "charge": data["/BunchPopulation/data"][(nrec - 1) * nb + b],
+                "bunch_length": data["/BunchLength/data"][(nrec - 1) * nb + b],
+                "bunch_position": data["/BunchPosition/data"][(nrec - 1) * nb + b],
+                "volt": attrs.get("/WakePotential/data@Volt"),
+                "derivation": attrs.get("/Info/Parameters@derivation"),
+                "cmd": cmd, "wall_s": wall, "n": n, "steps": steps, "name": tag, "bunch": b, "nb": nb,
+                "tg": {"inovesa": tg["inovesa"], "h5cat": tg["h5cat"]}, "workdir": workdir}
+    recs = [bunch_record(b) for b in range(nb)]
+    rec = dict(recs[0])
+    rec["bunches"] = recs           # one record per bunch (bunch 0 first); single-bunch callers use rec itself
     if not keep:
         for p in junk:
             if os.path.exists(p):
@@ -487,17 +501,31 @@ def reference_for(cfg, rec, timeout_s=3000):
 def judge(ctx, cfg, rec, ref=None):
     """Verdict on one long run for lib/props/C05.py: evaluates the record (running / reusing the reference run
     when none is given), reports violations through ctx (may be None) and returns a JSON-able summary.
+    A multi-bunch run is judged bunch by bunch: EACH bunch's own recorded profile against its own recorded wake
+    (the summary of bunch 0 carries the others under "bunches").
     A run that did not become stationary does not meet the hypothesis of the property: noted, never an alarm."""
     if ref is None:
         ref = reference_for(cfg, rec)
+    recs = rec.get("bunches") or [rec]
+    if len(recs) == 1:
+        return _judge_bunch(ctx, cfg, rec, ref, None)
+    summs = [_judge_bunch(ctx, cfg, rb, ref, b) for b, rb in enumerate(recs)]
+    out = dict(summs[0])
+    out["bunches"] = summs
+    return out
+
+
+def _judge_bunch(ctx, cfg, rec, ref, bunch):
     e = evaluate(cfg, rec, ref, sp2=cfg.get("sp2"))
-    name = cfg_name(cfg)
+    name = cfg_name(cfg) + ("" if bunch is None else ":bunch%d" % bunch)
+    who = "" if bunch is None else " (bunch %d of %d, its own recorded profile and wake)" % (bunch, rec.get("nb", 1))
     case = {"kind": "long-run", "cfg": cfg}
     summ = {k: (float("%.6g" % v) if isinstance(v, float) else v) for k, v in e.items()}
+    summ["name"] = name
     summ["cmd"] = " ".join(rec["cmd"][1:])
     nontrivial = bool(e["stationary"] and e["span"] >= 0.05)
     if ctx is not None:
-        ctx.count("long-run:" + cfg["kind"])
+        ctx.count("long-run:" + cfg["kind"] + ("" if bunch in (None, 0) else ":bunch>0"))
         ctx.case_done("long-run:" + name, nontrivial)
         if not e["stationary"]:
             ctx.notes.append("long run %s not stationary to %.0e (%.1e / reference %.1e): %s"
@@ -505,7 +533,7 @@ def judge(ctx, cfg, rec, ref=None):
                                 "judged with tolerances widened by %.1e" % e["widen"] if e["judged"]
                                 else "hypothesis not met, not judged"))
         if e["judged"]:
-            if e["ok_ref"] is False:
+            if e["ok_ref"] is False and bunch in (None, 0):
                 ctx.violation("impl-oracle", "zero-current stationary profile is not the grid's Gaussian: residual range "
                               "%.4g > bound %.4g (reference run %s)" % (e["ref_range"], e["ref_range_max"],
                                                                         cfg_name(reference_config(cfg))),
@@ -513,21 +541,21 @@ def judge(ctx, cfg, rec, ref=None):
                               expected="<= %.4g" % e["ref_range_max"],
                               sig={"stage": "long-run", "what": "reference-residual"})
             if not e["ok_rel"]:
-                ctx.violation("impl-oracle", "stationary state violates the Haissinski equation: residual (reference "
+                ctx.violation("impl-oracle", "stationary state violates the Haissinski equation%s: residual (reference "
                               "run subtracted) %.4g > tol %.4g, wake term span %.4g; alternatives sign+ %.4g, x2 %.4g, "
-                              "x0.5 %.4g" % (e["rel_right"], e["tol_rel"], e["span"], e["rel_sign+"], e["rel_x2"],
+                              "x0.5 %.4g" % (who, e["rel_right"], e["tol_rel"], e["span"], e["rel_sign+"], e["rel_x2"],
                                              e["rel_x0.5"]),
                               case=case, observed=e["rel_right"], expected="<= %.4g" % e["tol_rel"],
                               sig={"stage": "long-run", "what": "haissinski-residual"})
             if e["ok_abs"] is False:
-                ctx.violation("impl-oracle", "stationary state violates the Haissinski equation: residual %.4g > "
+                ctx.violation("impl-oracle", "stationary state violates the Haissinski equation%s: residual %.4g > "
                               "tol %.4g (discretisation term 3.2 dq^2 included), wake term span %.4g"
-                              % (e["abs_right"], e["tol_abs"], e["span"]),
+                              % (who, e["abs_right"], e["tol_abs"], e["span"]),
                               case=case, observed=e["abs_right"], expected="<= %.4g" % e["tol_abs"],
                               sig={"stage": "long-run", "what": "haissinski-residual"})
             if not e["ok_espread"]:
-                ctx.violation("impl-oracle", "stationary energy spread %.6f differs from sigma_p*(1+dtheta^2/8), sigma_p^2 = 1-delta^2/2 (3-point) or 1 (4-point),"
-                              " = %.6f by %.2e relative (tol %.2e)" % (e["espread"], e["espread_expected"],
+                ctx.violation("impl-oracle", "stationary energy spread%s %.6f differs from sigma_p*(1+dtheta^2/8), sigma_p^2 = 1-delta^2/2 (3-point) or 1 (4-point),"
+                              " = %.6f by %.2e relative (tol %.2e)" % (who, e["espread"], e["espread_expected"],
                                                                        e["espread_relerr"], e["espread_tol"]),
                               case=case, observed=e["espread"], expected=e["espread_expected"],
                               sig={"stage": "long-run", "what": "energy-spread"})
@@ -555,6 +583,10 @@ def quick_configs():
         # the program's default 4-point Fokker-Planck stencil (equilibrium variance 1; needs renormalisation
         # to become stationary): residual with sigma_p^2 = 1
         _cfg("q64-pp-1mA-deriv4", "csr-pp", 64, 200, 1e-3, opts={"derivation": 4, "RenormalizeCharge": 1}, sp2=1.0),
+        # two bunches with unequal currents (resistive collimator impedance: each bunch sees its own wake only,
+        # and the wakes differ with the currents): the residual is evaluated for EACH bunch from its own recorded
+        # profile and wake; same numerics as the q64 runs, so no further reference run
+        _cfg("q64-coll-2bunches-4mA-1.5mA", "collimator", 64, 100, [4e-3, 1.5e-3], collimator_radius=0.005),
     ]
 
 
@@ -577,6 +609,12 @@ def thorough_configs():
     for cur in (1e-3, 2e-3):
         out.append(_cfg("t128-N200-pp-%gmA-deriv4" % (cur * 1e3), "csr-pp", 128, 200, cur,
                         opts={"derivation": 4, "RenormalizeCharge": 1}, sp2=1.0))
+    # multi-bunch: unequal currents, every bunch judged on its own recorded profile and wake; the second one
+    # with an empty bucket between the bunches
+    out.append(_cfg("t128-N200-coll-2bunches-4mA-1.5mA", "collimator", 128, 200, [4e-3, 1.5e-3], collimator_radius=0.005))
+    out.append(_cfg("t128-N200-coll-3buckets-3mA-0-1.5mA", "collimator", 128, 200, [3e-3, 0.0, 1.5e-3],
+                    collimator_radius=0.005))
+    out.append(_cfg("t64-N100-coll-2bunches-4mA-1.5mA", "collimator", 64, 100, [4e-3, 1.5e-3], collimator_radius=0.005))
     return out
 
 
